@@ -19,8 +19,10 @@ Definition C20_full : Prop :=
   forall en evs, conforms gen_facts en sinit evs (fst (run gen_facts en init_state evs)) = true.
 
 (** * what is proved (1): the same statement on the decidable domain [in_domain gen_facts en evs]
-      - one engine per history (needed only for the session: see C20_partial_no_mixture for any number of engines, and
-        C20_refuted_singleton / _stale_config for why two engines break the session clause),
+      - one engine per history UNLESS [multi_mode gen_facts] holds (per-class session singleton, activate() resets the
+        configuration, no Builder caches its session) -- then any number of engines; the restriction is needed only for
+        the session (see C20_partial_no_mixture for everything else, and C20_refuted_singleton / _stale_config for why two
+        engines break the session clause when the source lacks those three shapes),
       - every activate happens in a state where the sub-modules it does not register hold nothing foreign ([act_ok]),
       - context exits by exception only if activate_context reaches deactivate() on that path,
       - deactivate() does not meet a real module whose import raises something its loop does not swallow,
@@ -145,6 +147,18 @@ Example C20_no_mixture_domain_all_pairs :
        CtxExit XNormal; Import FA PSql; Activate e1 None []; Activate e2 None []; Import FA (PSub "functions");
        Activate e1 None []; Import FS (PSub "functions"); Deactivate; Import FB PSql]) engines) engines = true.
 Proof. vm_compute. reflexivity. Qed.
+
+(** with the repaired session code the session clause holds for switching engines as well: every ordered pair of
+    engines, sessions requested under each, switching back and forth, a raise-exit in between *)
+Example C20_session_domain_all_pairs :
+  multi_mode gen_facts && f_ctx_finally gen_facts = true ->
+  forallb (fun e1 => forallb (fun e2 =>
+    mem e1 (f_selfref gen_facts) || mem e2 (f_selfref gen_facts) ||
+    in_domain gen_facts absent
+      [Activate e1 (Some 1) []; GetOrCreate; CtxEnter e2 (Some 2) []; GetOrCreate; Import FA (PSub "functions");
+       CtxExit XRaise; GetOrCreate; Activate e1 None []; GetOrCreate; Activate e2 (Some 1) []; GetOrCreate;
+       Deactivate; Import FB PSql]) engines) engines = true.
+Proof. intros H. vm_compute in H; first [discriminate H | vm_compute; reflexivity]. Qed.
 
 (** * refutations of the full statement on the faithful model; each is conditional on the source still having the
     shape that causes it, so that a repaired source does not break this file *)
